@@ -148,7 +148,8 @@ func genVesting(r *sim.RNG, p *sim.Plan, tier string) []sim.Step {
 		}
 		// I: nDest, startKind, durKind, amountSeed, extraKind, destSeed, amountProfile
 		return sim.Step{Op: "vs.add", A: r.Intn(5), I: []int64{int64(nd), int64(r.Pick([]int{8, 3, 2, 1})), int64(r.Pick([]int{3, 2, 4, 3, 1, 3})),
-			int64(r.Intn(1 << 30)), int64(r.Pick([]int{6, 2, 2, 1})), int64(r.Intn(1 << 30)), int64(r.Pick([]int{3, 3, 3, 2}))}}
+			int64(r.Intn(1 << 30)), int64(r.Pick([]int{6, 2, 2, 1})), int64(r.Intn(1 << 30)), int64(r.Pick([]int{3, 3, 3, 2})),
+			int64(r.Pick([]int{9, 2, 1, 1, 1}))}} // last: bookkeeping fields injected into the destination objects (0 none)
 	}
 	if r.Intn(4) != 0 {
 		out = append(out, cfg())
@@ -309,10 +310,16 @@ func setupVesting(w *ledger.World, r *ledger.Runner) {
 		// amount profile: 0 small, 1 medium, 2 a share of the balance (large), 3 just above 2^53 (float rounding)
 		prof := st.Int(6, 0) % 4
 		budget := uint64(bal) / 2
+		// the destination objects of the request may carry the contract's own bookkeeping
+		// fields (vested / last / move): a new pool must start from zero whatever they say
 		type dj struct {
 			ID     string `json:"id"`
 			Amount uint64 `json:"amount"`
+			Vested uint64 `json:"vested,omitempty"`
+			Last   int64  `json:"last,omitempty"`
+			Move   int64  `json:"move,omitempty"`
 		}
+		inject := st.Int(7, 0) % 5
 		var dests []dj
 		var want uint64
 		for j := 0; j < nd; j++ {
@@ -350,7 +357,24 @@ func setupVesting(w *ledger.World, r *ledger.Runner) {
 					id, _ = w.Account(dr.Intn(len(w.Clients)))
 				}
 			}
-			dests = append(dests, dj{ID: id, Amount: amt})
+			e := dj{ID: id, Amount: amt}
+			switch inject {
+			case 1: // part of the amount declared as already vested
+				e.Vested = 1 + amt*uint64(1+ar.Intn(9))/10
+				if e.Vested > amt {
+					e.Vested = amt
+				}
+			case 2: // everything declared vested, last payment in the past
+				e.Vested, e.Last, e.Move = amt, int64(w.Now)-1000, int64(w.Now)-1000
+			case 3: // last payment far in the future
+				e.Last, e.Move = int64(w.Now)+1e6, int64(w.Now)+1e6
+			case 4:
+				e.Vested, e.Last, e.Move = 1+amt/2, int64(w.Now)+1e6, int64(w.Now)-1e6
+				if e.Vested > amt {
+					e.Vested = amt
+				}
+			}
+			dests = append(dests, e)
 			want += amt
 		}
 		value := want
@@ -364,6 +388,9 @@ func setupVesting(w *ledger.World, r *ledger.Runner) {
 				value = want - 1
 				tr.Fault("add_underfunded")
 			}
+		}
+		if inject != 0 {
+			tr.Fault("add_request_injects_bookkeeping_fields")
 		}
 		in := map[string]any{"description": "p", "start_time": start, "duration": dur * 1e9, "destinations": dests}
 		o := call(r, from, ledger.AddrVesting, "add", in, "", value, 0)
